@@ -203,8 +203,7 @@ def parserLoop (p : Pump) : List RawItem → Step × Pump × List RawItem
       if style == .folded && locCol0 loc && !(trim val).isEmpty then
         (.error (.foldedIndent loc), p, rest)
       else
-        let style' := if val.isEmpty && anchor != 0 && (style == .single || style == .double) then Style.plain else style
-        let ev := Ev.scalar val (tagCode tag) tag style' anchor loc
+        let ev := Ev.scalar val (tagCode tag) tag style anchor loc
         let p := { p with recStack := recordAll p.recStack ev }
         let p := if anchor != 0 then { p with anchors := setAnchor p.anchors anchor [ev] } else p
         (.event ev, { p with lastLoc := loc, producedAny := true }, rest)
